@@ -30,6 +30,23 @@ theorem two_stage_eq_one_shot (cfg : Cfg) (comt : Nat → Option Committee) (p1 
   rw [(partially_eq hs p1 pm).1]
   cases h : partiallyPure cfg comt p1 pm <;> simp
 
+/-- The statement in the shape of the property: for a partial message whose placeholders are well-formed
+(in particular every message in stripped form, whose placeholders are bottom) and with both stages at the
+same progress, the two-stage path accepts **iff** the chain's key is the announced key and one-shot
+validation of the completed message accepts. -/
+theorem two_stage_eq_one_shot_same_progress (cfg : Cfg) (comt : Nat → Option Committee) (p : Progress)
+    (cache cache' : VCache) (hs : CacheSound cfg comt cache) (hs' : CacheSound cfg comt cache')
+    (pm : PMsg) (x : Chain) (hph : placeholdersOK pm) :
+    twoStage cfg comt p p cache pm x = .accept ↔
+      (keyOf x = pm.key ∧ (validate cfg comt p cache' (complete pm x).msg).1 = .accept) := by
+  rw [two_stage_eq_one_shot cfg comt p p cache cache' hs hs' pm x]
+  constructor
+  · rintro ⟨h1, _, _, h4⟩; exact ⟨h1, h4⟩
+  · rintro ⟨h1, h4⟩
+    refine ⟨h1, hph, ?_, h4⟩
+    rw [(validate_eq hs' p _).1, validatePure_accept_iff, byProgress_complete] at h4
+    exact h4.1
+
 /-- In particular a chain whose key differs from the announced key is never admitted. -/
 theorem two_stage_binds_key (cfg : Cfg) (comt : Nat → Option Committee) (p1 p2 : Progress)
     (cache : VCache) (hs : CacheSound cfg comt cache) (pm : PMsg) (x : Chain)
@@ -200,6 +217,14 @@ example : twoStage cfg0 comt0 prog0 prog0 cache0 (strip m0) [tipA] = .invalid :=
 -- … and a partial message announced under another key is rejected at stage one (signature is over the key)
 example : twoStage cfg0 comt0 prog0 prog0 cache0 { strip m0 with key := keyOf [tipA] } [tipA] = .invalid := by decide
 example : complete (strip m0) m0.vote.value = ⟨m0, keyOf m0.vote.value⟩ := by decide
+-- the placeholder hypothesis is needed: stage one runs `ECChain.Validate` on whatever travels in the place of
+-- the stripped chain, so a partial message carrying a malformed placeholder (here two tipsets with
+-- decreasing epochs) is rejected although the completed message is valid — the two-stage path is
+-- (harmlessly) stricter than one-shot validation of the completed message on such crafted inputs
+def pmTampered : PMsg :=
+  { strip m0 with msg := { (strip m0).msg with vote := { (strip m0).msg.vote with value := [tipB, tipA] } } }
+example : twoStage cfg0 comt0 prog0 prog0 cache0 pmTampered [tipA, tipB] = .invalid ∧
+    (validate cfg0 comt0 prog0 cache0 (complete pmTampered [tipA, tipB]).msg).1 = .accept := by decide
 example : placeholdersOK (strip m0) := by
   constructor
   · decide
